@@ -26,6 +26,9 @@ def build():
             p = os.path.join(work, 'Cargo.toml')
             t = open(p).read().replace('"/repo/', '"%s/' % REPO.rstrip('/'))
             open(p, 'w').write(t)
+            pm = os.path.join(work, 'src', 'main.rs')
+            tm = open(pm).read().replace('"/repo/', '"%s/' % REPO.rstrip('/'))
+            open(pm, 'w').write(tm)
         lock = os.path.join(REPO, 'Cargo.lock')
         if os.path.exists(lock):
             shutil.copy(lock, os.path.join(work, 'Cargo.lock'))
